@@ -81,12 +81,16 @@ def run_variant(v, tier="quick"):
 
 
 def alpha_control(props):
-    """behaviour-preserving control: every local variable of every function renamed -> every check silent, same instance counts"""
+    """behaviour-preserving control: every local variable of every Python function and every template-local variable
+    (set / for targets) renamed -> every check silent, same instance counts"""
     tmp = pathlib.Path(tempfile.mkdtemp(prefix="nvsa-alpha-"))
     try:
         r = subprocess.run([sys.executable, str(VERIF / "tools" / "alpha_rename.py"), str(tmp / "tree")], capture_output=True, text=True, timeout=300)
         if r.returncode != 0:
             return [f"alpha_rename failed: {r.stdout[-300:]} {r.stderr[-300:]}"]
+        r = subprocess.run([sys.executable, str(VERIF / "tools" / "alpha_rename_j2.py"), str(tmp / "tree"), "--keep-tree"], capture_output=True, text=True, timeout=300)
+        if r.returncode != 0 or "alpha-renamed" not in r.stdout:
+            return [f"alpha_rename_j2 failed: {r.stdout[-300:]} {r.stderr[-300:]}"]
         all_props = [p.stem for p in sorted((VERIF / "checks").glob("C[0-9][0-9].py"))]
         wanted = [p for p in all_props if not props or p in props]
         problems = []
@@ -136,7 +140,7 @@ def main(props, jobs=16):
     for a in alpha:
         print(f"FAIL alpha-rename control: {a}")
     if not alpha:
-        print("ok   alpha-rename control: all checks silent on the tree with every local variable renamed; instance counts identical")
+        print("ok   alpha-rename control: all checks silent on the tree with every Python local and template-local variable renamed; instance counts identical")
     nb = sum(1 for r in results if r[0]["kind"] == "break")
     print(f"self-test: {len(results)} variants ({nb} breaking, {len(results) - nb} benign), {len(bad)} failed, {time.time() - t0:.1f}s")
     summary = {
